@@ -31,6 +31,8 @@ import (
 	"com.tuntun.rangers/node/src/consensus/logical"
 	"com.tuntun.rangers/node/src/consensus/logical/group_create"
 	"com.tuntun.rangers/node/src/consensus/model"
+	"com.tuntun.rangers/node/src/middleware/notify"
+	"com.tuntun.rangers/node/src/middleware/types"
 )
 
 // ---------------------------------------------------------------------------------------
@@ -48,7 +50,8 @@ type kase struct {
 	Ch   []int    `json:"choices"`             // explorer choice sequence (random k-pick, map iteration start positions)
 	IDv  []string `json:"id_values,omitempty"` // informational
 
-	M string `json:"message_hex,omitempty"` // sweep: the message
+	M    string `json:"message_hex,omitempty"` // sweep: the message
+	Cand int    `json:"candidates,omitempty"`  // parent: size of the new group's candidate list (n is the parent group's size)
 
 	minDev int // executions with fewer deviations repeat an earlier phase and are not counted again
 }
@@ -261,7 +264,8 @@ type group struct {
 	shares   [][][]byte // [msg][member] serialized signature share
 	expect   [][]byte   // [msg] Sign(sum of dealer secrets, m)
 	geOrder  int
-	zeroRes  int // members whose id is 0 mod the order (id == order)
+	zeroRes  int           // members whose id is 0 mod the order (id == order)
+	cands    []groupsig.ID // candidate list handed to the DKG context: the members plus two more (a different size)
 	setupBad []result
 }
 
@@ -352,10 +356,11 @@ func setup(n, seed int, idkind string) *group {
 			}
 		}
 	}
+	g.cands = append(append([]groupsig.ID{}, g.ids...), minerFor(seed, n).ID, minerFor(seed, n+1).ID)
 	// every member deals
 	g.gskWant = new(big.Int)
 	for j := 0; j < n; j++ {
-		nd := group_create.VerifNewNode(g.seeds[j], g.ids[j], g.hash, g.ids)
+		nd := group_create.VerifNewNodeWithCandidates(g.seeds[j], g.ids[j], g.hash, g.ids, g.cands)
 		if nd == nil {
 			panic("harness: VerifNewNode returned nil")
 		}
@@ -435,7 +440,7 @@ func dkgRun(g *group, i int, ord []int, ch *fw.Chooser) (*group_create.VerifNode
 	var rcs []int
 	var adopted []keys // the keys at every moment the node reports "aggregation complete" (production adopts them then)
 	p, v, site := fw.Try(func() {
-		nd = group_create.VerifNewNode(g.seeds[i], g.ids[i], g.hash, g.ids)
+		nd = group_create.VerifNewNodeWithCandidates(g.seeds[i], g.ids[i], g.hash, g.ids, g.cands)
 		if ch != nil {
 			mapiter.Install(decider(ch))
 			defer mapiter.Uninstall()
@@ -688,6 +693,121 @@ func reuseRun(g *group, mi int) result {
 	return result{outcome: "reuse:all-equal", obs: fmt.Sprint(steps)}
 }
 
+// ---------------------------------------------------------------------------------------
+// production call sites that size a threshold collector themselves
+
+func (g *group) groupInfo() *model.GroupInfo {
+	info := &model.GroupInitInfo{GroupHeader: &types.GroupHeader{Hash: g.hash}, GroupMembers: append([]groupsig.ID{}, g.ids...)}
+	return model.NewGroupInfo(*groupsig.NewIDFromPubkey(g.gpk), g.gpk, info)
+}
+
+// collect feeds the shares of message mi in arrival order `ord` (all members) through add and applies
+// the oracle: whenever the collector says "recovered" its signature is Sign(sum of dealer secrets, m)
+// (fewer than k shares can never give that), it says so once k = GetGroupK(group size) shares are in,
+// and the value stays.
+func collect(g *group, what, sigp string, mi int, ord []int, ch *fw.Chooser, add func(j int, s groupsig.Signature), recovered func() bool, get func() groupsig.Signature) result {
+	var r result
+	p, v, site := fw.Try(func() {
+		if ch != nil {
+			mapiter.Install(decider(ch))
+			defer mapiter.Uninstall()
+		}
+		for t, j := range ord {
+			add(j, g.share(mi, j))
+			rec := recovered()
+			var got []byte
+			if rec {
+				s := get()
+				got = s.Serialize()
+			}
+			if rec && !bytes.Equal(got, g.expect[mi]) {
+				r = result{bad: true, sig: sigp + ":mismatch", obs: fmt.Sprintf("%d %x", t, got),
+					msg: fmt.Sprintf("%s: after %d of %d shares (arrival order %v, threshold of the group = %d) the collector reports a recovered signature %x, Sign(sum of dealer secrets, m) = %x", what, t+1, g.n, ord, g.k, got, g.expect[mi])}
+				return
+			}
+			if !rec && t+1 >= g.k {
+				r = result{bad: true, sig: sigp + ":not-recovered-at-threshold", obs: fmt.Sprint(t),
+					msg: fmt.Sprintf("%s: %d valid shares of a group of %d are in (threshold %d, arrival order %v) but no group signature was recovered", what, t+1, g.n, g.k, ord)}
+				return
+			}
+		}
+		r = result{outcome: sigp[len("C13:"):] + ":equal", obs: "ok"}
+	})
+	if p {
+		return result{bad: true, sig: "C13:panic:" + site, msg: fmt.Sprintf("panic in %s: %v", what, v), obs: "panic:" + site}
+	}
+	return r
+}
+
+// parentRun: the parent group (g) signs the header of a new group with `cand` candidates.
+func parentRun(g *group, cand int, ord []int, ch *fw.Chooser) result {
+	var cands []groupsig.ID
+	for i := 0; i < cand; i++ {
+		cands = append(cands, minerFor(1000+g.seed, i).ID)
+	}
+	bh := &types.BlockHeader{Hash: common.BytesToHash(h256("c13 base block")), Height: 100}
+	pc := group_create.VerifNewParentCollector(g.groupInfo(), cands, bh, &types.Group{Id: []byte("c13 base group")})
+	what := fmt.Sprintf("parent-group collector (createGroupContext: parent group of %d members, %d candidates)", g.n, cand)
+	r := collect(g, what, "C13:parent", 0, ord, ch,
+		func(j int, s groupsig.Signature) { pc.AcceptPiece(g.ids[j], s) }, pc.Recovered, pc.GroupSign)
+	if !r.bad && !pc.VerifyGroupSign(g.gpk, g.msgs[0]) {
+		return result{bad: true, sig: "C13:parent:group-verify", obs: "false",
+			msg: what + ": the recovered signature does not verify under the parent group public key"}
+	}
+	return r
+}
+
+// round1Run: the collectors of a round1 built and started by the production code for group g.
+func round1Run(g *group, mi int, ord []int, ch *fw.Chooser) result {
+	bh := &types.BlockHeader{Hash: common.BytesToHash(g.msgs[0]), Height: 100}
+	pre := &types.BlockHeader{Hash: common.BytesToHash(h256("c13 previous block")), Height: 99, Random: g.msgs[1]}
+	vr := logical.VerifRoundNew(nil, nil, nil, g.ids[0], g.groupInfo(), bh, pre)
+	if vr == nil {
+		return result{bad: true, sig: "C13:round1-start:not-started", msg: "round1 could not be started", obs: "nil"}
+	}
+	block, beacon := vr.VerifRoundGenerators()
+	gen := block
+	if mi == 1 {
+		gen = beacon
+	}
+	what := fmt.Sprintf("round1 collector #%d (round1.Start for a group of %d members)", mi, g.n)
+	return collect(g, what, "C13:round1-start", mi, ord, ch,
+		func(j int, s groupsig.Signature) { gen.AddWitnessSign(g.ids[j], s) }, gen.SignRecovered, gen.GetGroupSign)
+}
+
+// gpkCollectorRun: members announce the group public key their DKG produced; what the collector adopts
+// must be the sum of the dealers' keys, and it must have adopted one when every member has announced.
+func gpkCollectorRun(g *group, ord []int, ch *fw.Chooser) result {
+	var r result
+	p, v, site := fw.Try(func() {
+		pc := group_create.VerifNewPubkeyCollector(g.hash, g.ids)
+		if ch != nil {
+			mapiter.Install(decider(ch))
+			defer mapiter.Uninstall()
+		}
+		st := int32(0)
+		for t, j := range ord {
+			st = pc.Handle(g.ids[j], g.gpk)
+			gp := pc.GroupPK()
+			if st == 1 && !bytes.Equal(gp.Serialize(), g.gpkWant) {
+				r = result{bad: true, sig: "C13:gpk-collector:wrong-key", obs: fmt.Sprint(t),
+					msg: fmt.Sprintf("group public key collector (group of %d) adopted %x after %d announcements, sum of dealer keys is %x", g.n, gp.Serialize(), t+1, g.gpkWant)}
+				return
+			}
+		}
+		if st != 1 {
+			r = result{bad: true, sig: "C13:gpk-collector:not-adopted", obs: fmt.Sprint(st),
+				msg: fmt.Sprintf("group public key collector (group of %d): all members announced the same key, status %d", g.n, st)}
+			return
+		}
+		r = result{outcome: "gpk-collector:adopted-sum", obs: "ok"}
+	})
+	if p {
+		return result{bad: true, sig: "C13:panic:" + site, msg: fmt.Sprintf("panic in group public key collector: %v", v), obs: "panic:" + site}
+	}
+	return r
+}
+
 var sweepWidths = []int{32, 1, 8, 33, 64}
 
 // counterMsg: i as a big-endian string of `width` bytes.
@@ -810,6 +930,12 @@ func execCase(g *group, k *kase, ch *fw.Chooser) result {
 		return genRun(g, k.Part, k.Msg, k.Ord, ch)
 	case "reuse":
 		return reuseRun(g, k.Msg)
+	case "parent":
+		return parentRun(g, k.Cand, k.Ord, ch)
+	case "round1-start":
+		return round1Run(g, k.Msg, k.Ord, ch)
+	case "gpk-collector":
+		return gpkCollectorRun(g, k.Ord, ch)
 	case "sweep":
 		m, err := hex.DecodeString(k.M)
 		if err != nil {
@@ -908,6 +1034,9 @@ func boot() {
 	common.Init(0, "1.ini", "dev")
 	// exactly what logical.InitConsensus does for the parameters
 	model.InitParam(common.GlobalConf.GetSectionManager("consensus"))
+	if notify.BUS == nil {
+		notify.BUS = notify.NewBus() // as middleware.InitMiddleware does; round0.NextRound unsubscribes from it
+	}
 	ctl.orig = crand.Reader
 	crand.Reader = ctl
 }
@@ -1022,6 +1151,52 @@ func run(c *fw.Ctx) {
 			}
 		}
 		return g
+	}
+
+	// --- P. call sites that size a collector themselves, driven with sizes that differ from every
+	// other size in their context: (parent group size, candidate count of the new group)
+	{
+		t0 := cpuMs()
+		allOrders := func(n int) [][]int {
+			if n <= 4 {
+				return perms(n)
+			}
+			return rotrev(n)
+		}
+		for _, pcand := range [][2]int{{3, 3}, {5, 3}, {8, 6}, {10, 5}, {10, 9}, {4, 7}} {
+			g := getGroup(pcand[0], 0, "hash")
+			if !g.ready() {
+				continue
+			}
+			for _, ord := range allOrders(g.n) {
+				if !mine() || expired() {
+					continue
+				}
+				ks := g.kase("parent", 0)
+				ks.Cand, ks.Ord = pcand[1], ord
+				explore(c, g, ks, 1)
+			}
+		}
+		for _, n := range []int{3, 4, 5, 8, 10} {
+			g := getGroup(n, 0, "hash")
+			if !g.ready() {
+				continue
+			}
+			for _, ord := range allOrders(n) {
+				if !mine() || expired() {
+					continue
+				}
+				for mi := 0; mi < 2; mi++ {
+					ks := g.kase("round1-start", mi)
+					ks.Ord = ord
+					explore(c, g, ks, 1)
+				}
+				ks := g.kase("gpk-collector", 0)
+				ks.Ord = ord
+				explore(c, g, ks, 1)
+			}
+		}
+		c.Count("cpu_ms_callsites", cpuMs()-t0)
 	}
 
 	// --- S. message sweep: the whole property for two small groups over many messages
@@ -1245,7 +1420,8 @@ func main() {
 		Rule: "one case = (group built by the node's own DKG: size n, dealer seed set, member-id family) x message x path " +
 			"(dkg arrival order per member | share pairing check | RecoverGroupSignature on a map of s>=k shares | model.GroupSignGenerator | round1 groupSignGenerator | " +
 			"one set of share objects reused over consecutive recoveries of every k-subset, its supersets and both collectors, then re-verified | " +
-			"message sweep: the whole property for a fixed small group and one counter message) " +
+			"message sweep: the whole property for a fixed small group and one counter message | " +
+			"production call sites that size a collector themselves: createGroupContext (parent size, candidate count), round1.Start, group public key collector, DKG context with a larger candidate list) " +
 			"x ordered member subset x explorer choice sequence (which k iteration positions the random selection keeps, start slot of every map iteration). " +
 			"Start slots beyond the occupied ones of a one-bucket map are not enumerated (same order), so counted cases differ in input or in iteration order; " +
 			"every counted case combines >= 2 shares/pieces, its result was compared byte-wise with the subset-independent expectation and the share objects handed in were required to be unchanged",
